@@ -43,3 +43,28 @@ def tier2(tier, rng):
             yield {"h": h, "w": w, "grid": g}
     for g in L.sample(rng, L.all_grids(2, 2, _values(2, 2)), 10 if th else 2):
         yield {"h": 2, "w": 2, "grid": g}
+
+
+def big(tier, rng):
+    """long single-row / single-column boards: one number seeing all the other cells (value N - 1 >= 18), or two
+    adjacent numbers seeing the two ends"""
+    th = tier == "thorough"
+    for n in (L.LONG if th else L.sample(rng, L.LONG, 3) + [21]):
+        p = rng.randrange(n)
+        given = [-1] * n
+        given[p] = n - 1
+        nums = [0] * n
+        nums[p] = n - 1
+        has = [0] * n
+        has[p] = 1
+        yield {"h": 1, "w": n, "grid": [given], "planted": [nums + has], "n_solutions": 1}
+        yield {"h": n, "w": 1, "grid": [[v] for v in given], "planted": [nums + has], "n_solutions": 1}
+        p = rng.randrange(0, n - 1)
+        if p != n - p - 2:
+            given = [-1] * n
+            given[p], given[p + 1] = p, n - p - 2
+            nums = [0] * n
+            nums[p], nums[p + 1] = p, n - p - 2
+            has = [0] * n
+            has[p] = has[p + 1] = 1
+            yield {"h": 1, "w": n, "grid": [given], "planted": [nums + has], "n_solutions": 1}
